@@ -8,7 +8,8 @@ namespace Nuts.C16
 
 /-- a row's columns are what `storePresentation` reads off the presentation -/
 def RowWF (r : Row) : Prop :=
-  (∃ m, r.vp.signer = some (r.subject, m)) ∧ r.vp.id = some r.id ∧ r.vp.exp = some r.exp ∧ r.vp.jwt = true
+  (∃ m, r.vp.signer = some (r.subject, m)) ∧ r.vp.id = some r.id ∧ r.vp.exp = some r.exp ∧ r.vp.jwt = true ∧
+  r.vp.creds.any (fun c => !c.hasId) = false
 
 /-- What the property demands of a listed presentation, relative to the list `s` and the clock `now` at which it was
     offered: a JWT presentation with an id, addressed to the service, expiring within the maximum validity, signed by a
@@ -24,6 +25,7 @@ structure Acceptable (d : Def) (side : Side) (s : Store) (now : Nat) (vp : VP) (
   verifiable : vp.verdict side = true
   available : s.verifierUp = true
   registration : vp.retraction = false →
+    vp.creds.any (fun c => !c.hasId) = false ∧
     (∀ c ∈ vp.creds, ∀ ce, c.exp = some ce → e ≤ ce) ∧ vp.pex = .matched vp.creds.length
   retraction : vp.retraction = true →
     vp.creds = [] ∧ ∃ j, vp.retractJti = some j ∧ j ≠ "" ∧ ∃ r ∈ s.rows, r.subject = subj ∧ r.id = j
@@ -43,7 +45,8 @@ def Listed (d : Def) (t : Nat) (r : Row) : Prop :=
 
 /-- the presentation has what `updateService` / `storePresentation` dereference -/
 def VPWF (vp : VP) (subj id : String) (e : Nat) : Prop :=
-  (∃ m, vp.signer = some (subj, m)) ∧ vp.id = some id ∧ vp.exp = some e ∧ vp.jwt = true
+  (∃ m, vp.signer = some (subj, m)) ∧ vp.id = some id ∧ vp.exp = some e ∧ vp.jwt = true ∧
+  vp.creds.any (fun c => !c.hasId) = false
 
 /-- a presentation id names one presentation per signer (jti uniqueness) among the presentations `K` that are ever offered -/
 def IdFun (K : VP → Prop) : Prop :=
